@@ -385,6 +385,9 @@ func genEngineCases(c *Ctx) []string {
 			}
 		}
 		adaptiveInputs(c, ec)
+		if c.Rng.Intn(5) == 0 && ec.wf && ec.dbResourceOK() {
+			ec.res = []string{"db", "dbfs"}[c.Rng.Intn(2)]
+		}
 		// the same history in both modes
 		ec.mode = "long"
 		ls = append(ls, ec.String())
@@ -617,6 +620,10 @@ func genScenarioCases(c *Ctx, n int) []string {
 	var ls []string
 	for i := 0; i < n; i++ {
 		ec := scenarios[i%len(scenarios)](c)
+		// every third scenario is served through the library's DbResource (mem or fs store) instead of the recording one
+		if i%3 == 2 && ec.dbResourceOK() {
+			ec.res = []string{"db", "dbfs"}[c.Rng.Intn(2)]
+		}
 		ec.mode = "long"
 		ls = append(ls, ec.String())
 		ec.mode = "pers"
